@@ -29,6 +29,9 @@ struct Case {
     skipacc: Acc,
     /// an optional second loop connection over a later, disjoint range: (a, b, k, input skips)
     second: Option<(usize, usize, usize, bool)>,
+    /// the two ranges overlap or are nested: the statement defines no value for that, only
+    /// predict == final activation of forward is asserted
+    overlap: bool,
 }
 
 /// A range of layers whose output shape equals `dims` (the input shape of its first layer).
@@ -96,6 +99,20 @@ fn gen_range(t: &mut Tape, dims: &[usize], o: &GenOpts) -> Vec<LayerSpec> {
 
 fn decode(tape: &[u32]) -> Case {
     let mut t = Tape::new(tape);
+    if t.chance(1, 12) {
+        // overlapping / nested loop connections over a chain of equally wide dense layers
+        let o = GenOpts { acts: &[ActK::Linear, ActK::Tanh, ActK::Sigmoid, ActK::Leaky], ..GenOpts::default() };
+        let n = t.usize(1, 5);
+        let nl = t.usize(3, 5);
+        let layers: Vec<LayerSpec> = (0..nl).map(|_| LayerSpec::Dense { out: n, act: gen_act(&mut t, &o), bias: t.bool(), dropout: None }).collect();
+        let a = t.usize(0, nl - 2);
+        let b = t.usize(a, nl - 2);
+        // second loop: starts inside or at the first range, ends beyond it (overlap) or inside it (nested)
+        let a2 = t.usize(a, b);
+        let b2 = if t.bool() { t.usize(b + 1, nl - 1) } else { t.usize(a2, b) };
+        let second = if (a2, b2) == (a, b) || b2 == b { Some((a2, (b + 1).min(nl - 1), t.usize(1, 2), t.bool())) } else { Some((a2, b2, t.usize(1, 2), t.bool())) };
+        return Case { spec: NetSpec { input: vec![n], layers }, a, b, k: t.usize(1, 3), acc: ACCS[t.pick(5)], inskips: t.bool(), wseed: t.raw(), xseed: t.raw(), wclass: 2, skipacc: ACCS[t.pick(5)], second, overlap: true };
+    }
     let o = GenOpts { acts: &[ActK::Linear, ActK::Tanh, ActK::Sigmoid, ActK::ReLU, ActK::Leaky], max_hw: 5, allow_feedback: false, ..GenOpts::default() };
     // one case in 40: a flat network of width 65..300 (accumulations over long vectors)
     let wide = t.chance(1, 40);
@@ -144,7 +161,7 @@ fn decode(tape: &[u32]) -> Case {
     // k is mostly 1..3; one case in five loops 4..24 times (long loops settle to a fixed point)
     let k = if t.chance(1, 5) { t.usize(4, 24) } else { t.usize(1, 3) };
     let wclass = t.pick(4) as u8;
-    Case { spec: NetSpec { input, layers }, a, b, k, acc: ACCS[t.pick(5)], inskips: t.bool(), wseed: t.raw(), xseed: t.raw(), wclass, skipacc: ACCS[t.pick(5)], second }
+    Case { spec: NetSpec { input, layers }, a, b, k, acc: ACCS[t.pick(5)], inskips: t.bool(), wseed: t.raw(), xseed: t.raw(), wclass, skipacc: ACCS[t.pick(5)], second, overlap: false }
 }
 
 fn build_loop(case: &Case) -> Result<Network, String> {
@@ -192,6 +209,22 @@ fn check(case: &Case, ev: &mut CaseEv) -> CheckResult {
     apply_params(&mut net, &ps);
     let x = payload(case.xseed, 3, count(&spec.input), 1.0);
     let xt = tens::build(&spec.input, &x);
+    if case.overlap {
+        ev.class("overlapping / nested loop connections (predict == forward only)");
+        let got = match catch(|| net.predict(&xt)) {
+            Ok(g) => g,
+            Err(_) => {
+                ev.discard = Some("overlapping loops: predict aborts");
+                return Ok(());
+            }
+        };
+        let (_, act, _, _) = catch(|| net.forward(&xt)).map_err(|p| Fail::new(format!("forward panicked although predict did not (loops {}..{} x{} and {:?}): {}", case.a, case.b, case.k, case.second, p)))?;
+        let last = act.last().unwrap();
+        ensure!(last.shape == got.shape && tens::first_bit_diff(&tens::flat(last), &tens::flat(&got)).is_none(), "predict differs from the final activation of forward with loop connections {}..{} x{} (inskips {}) and {:?} ({:?}): {:?} vs {:?}; spec {:?}", case.a, case.b, case.k, case.inskips, case.second, case.acc, tens::flat(&got), tens::flat(last), spec);
+        ev.nontrivial = true;
+        ev.set_sig(&(spec, case.a, case.b, case.k, case.acc, case.inskips, case.second, "overlap"));
+        return Ok(());
+    }
 
     // model
     let fwd = |from: usize, to: usize, input: &Tensor| -> Result<Tensor, String> {
@@ -306,7 +339,7 @@ impl Prop for C17 {
         t.pick(400_000, 30_000_000)
     }
     fn rule(&self) -> String {
-        "tape-decoded network (one case in 40 flat with 65-300 inputs) = optional prefix layer + looped range a..b whose output shape equals the input shape of a (1-3 dense layers; 1-2 shape-preserving convolutions / deconvolutions; 1x1-kernel padding-1 convolution + 3x3 pool; 2x2 deconvolution + 2x2 pool; 2x2 pool + 2x2 deconvolution and 3x3 pool + padded 1x1 convolution, i.e. ranges that start at a max-pool); in one case of four a second loop connection over a later disjoint range (optionally one layer in between) + optional suffix (a dense layer, which makes the range output flattened, or another fitting layer); k = 1..3 (one case in five: 4..24), ordinary / small / zero weights in the range, five accumulations, input skips on/off, any accumulation configured for (absent) skip connections; distinct weights, random inputs. Oracle: o0 = R(x_a), oi = R(o(i-1) [+ x_a]), value passed on = acc(o0; o1..ok), composed from the library's own single-layer forwards (accumulations computed by the harness) (<= 2 ulp, bit-identical today); for overwrite without input skips additionally the plain network with a..b repeated k+1 times and the same weights. Non-trivial: a < b or a spatial range. Distinct = (architecture, a, b, k, accumulation, input skips).".into()
+        "tape-decoded network (one case in 40 flat with 65-300 inputs) = optional prefix layer + looped range a..b whose output shape equals the input shape of a (1-3 dense layers; 1-2 shape-preserving convolutions / deconvolutions; 1x1-kernel padding-1 convolution + 3x3 pool; 2x2 deconvolution + 2x2 pool; 2x2 pool + 2x2 deconvolution and 3x3 pool + padded 1x1 convolution, i.e. ranges that start at a max-pool); in one case of four a second loop connection over a later disjoint range (optionally one layer in between); one case in twelve has two overlapping or nested loop connections over a chain of equally wide dense layers - the statement defines no value for those, only predict == final activation of forward is asserted there + optional suffix (a dense layer, which makes the range output flattened, or another fitting layer); k = 1..3 (one case in five: 4..24), ordinary / small / zero weights in the range, five accumulations, input skips on/off, any accumulation configured for (absent) skip connections; distinct weights, random inputs. Oracle: o0 = R(x_a), oi = R(o(i-1) [+ x_a]), value passed on = acc(o0; o1..ok), composed from the library's own single-layer forwards (accumulations computed by the harness) (<= 2 ulp, bit-identical today); for overwrite without input skips additionally the plain network with a..b repeated k+1 times and the same weights. Non-trivial: a < b or a spatial range. Distinct = (architecture, a, b, k, accumulation, input skips).".into()
     }
     fn run_case(&self, tape: &[u32], ev: &mut CaseEv) -> CheckResult {
         check(&decode(tape), ev)
